@@ -212,6 +212,18 @@ func capturedString(L *LState, m *pm.MatchData, str string, idx int) string {
 
 }
 
+// gsubReplValue converts the value a replacement table or function produced for a match:
+// a string or a number replaces the match; anything else (false and nil keep the match and
+// are handled by the callers) is an error, as in lstrlib's add_value.
+func gsubReplValue(L *LState, value LValue) string {
+	switch value.Type() {
+	case LTString, LTNumber:
+		return LVAsString(value)
+	}
+	L.RaiseError("invalid replacement value (a %s)", value.Type().String())
+	return ""
+}
+
 func strGsubDoReplace(str string, info []replaceInfo) string {
 	offset := 0
 	buf := []byte(str)
@@ -270,7 +282,7 @@ func strGsubTable(L *LState, str string, repl *LTable, matches []*pm.MatchData) 
 			value = L.GetField(repl, str[match.Capture(idx):match.Capture(idx+1)])
 		}
 		if !LVIsFalse(value) {
-			infoList = append(infoList, replaceInfo{[]int{match.Capture(0), match.Capture(1)}, LVAsString(value)})
+			infoList = append(infoList, replaceInfo{[]int{match.Capture(0), match.Capture(1)}, gsubReplValue(L, value)})
 		}
 	}
 	return strGsubDoReplace(str, infoList)
@@ -298,7 +310,7 @@ func strGsubFunc(L *LState, str string, repl *LFunction, matches []*pm.MatchData
 		L.Call(nargs, 1)
 		ret := L.reg.Pop()
 		if !LVIsFalse(ret) {
-			infoList = append(infoList, replaceInfo{[]int{start, end}, LVAsString(ret)})
+			infoList = append(infoList, replaceInfo{[]int{start, end}, gsubReplValue(L, ret)})
 		}
 	}
 	return strGsubDoReplace(str, infoList)
